@@ -219,7 +219,14 @@ fn gen_hs(run: &mut Run, prop: &str, seed: u64, thorough: bool) {
                                     }
                                     v
                                 },
-                                "C14" => kinds.iter().filter(|f| matches!(f, Fault::WriteCapShort(_) | Fault::WriteCapInField(_) | Fault::WriteOversize | Fault::ReadCapShort(_) | Fault::ReadOversize | Fault::ReadTamper(Tamper::Truncate(_)))).cloned().collect(),
+                                "C14" => {
+                                    let mut v: Vec<Fault> = kinds.iter().filter(|f| matches!(f, Fault::WriteCapShort(_) | Fault::WriteCapInField(_) | Fault::WriteOversize | Fault::ReadCapShort(_) | Fault::ReadOversize | Fault::ReadTamper(Tamper::Truncate(_)))).cloned().collect();
+                                    // a psk bound late with set_psk: the lengths of the messages before and after are the pattern's
+                                    if inst.msgs[k].iter().any(|t| matches!(t, Tok::Psk(_))) {
+                                        v.insert(0, Fault::MissingPsk);
+                                    }
+                                    v
+                                },
                                 // out-of-phase calls; and rejected deliveries of every kind (an altered cleartext key makes the
                                 // DH itself fail for P-256, other alterations fail authentication): the indicators are queried
                                 // after each
@@ -704,18 +711,34 @@ fn run_mismatch(cfg: &HsCfg, kind: usize, slot: Option<usize>, sc: &mut Sc, r: &
         }
     }
     let mut failed = false;
+    // in a third of the scenarios every call is first attempted in a way that fails (a write into a buffer that is a
+    // few bytes short, a read into a payload buffer that is one byte short) and then retried: a failed call must not
+    // change what the parties disagree on (seed C08-I: psks zeroed once mixed, so that two retries "agree");
+    // in a fifth the payloads are empty and read into an empty buffer (seed C08-J: no cipher call for an empty output)
+    let with_retries = r.chance(1, 3);
+    let empty = r.chance(1, 5);
     for k in 0..inst.msgs.len() {
         let (w, rd) = if k % 2 == 0 { (1, 2) } else { (2, 1) };
-        let p = r.bytes(8);
+        let p = if empty { vec![] } else { r.bytes(8) };
+        if with_retries {
+            let short = [1usize, 3, 17, 40][r.below(4)];
+            let o = sc.ex.hs_write(w, &p, short);
+            sc.check_panic(&o, "hs_write (short buffer)");
+            sc.count("mismatch.failing_attempt");
+        }
         let o = sc.ex.hs_write(w, &p, 400);
         sc.check_panic(&o, "hs_write");
         let Some(m) = o.bytes().map(<[u8]>::to_vec) else {
             failed = true;
             break;
         };
+        if with_retries && !p.is_empty() {
+            let o = sc.ex.hs_read(rd, &m, p.len() - 1);
+            sc.check_panic(&o, "hs_read (short payload buffer)");
+        }
         // payload buffers: generous, exactly the payload's size, and with 1..15 spare bytes (a backend that needs
         // room for the tag takes another path then)
-        let rcap = [400usize, 8, 9, 23, 24, 400][r.below(6)];
+        let rcap = if empty { [0usize, 0, 1, 400][r.below(4)] } else { [400usize, 8, 9, 23, 24, 400][r.below(6)] };
         let o = sc.ex.hs_read(rd, &m, rcap);
         sc.check_panic(&o, "hs_read");
         if !o.is_ok() {
